@@ -302,7 +302,7 @@ fn c02_header_len3_bs0_sr16() {
 #[kani::stub(utf8like_bytesize, contract_bytesize_l6)]
 fn c02_header_len6_bs8_sr8() {
     let x: u8 = kani::any();
-    kani::assume(x < 255); // ExtraByte(255) (= 256 samples) is never built by from_size; see C16 units
+    // (ExtraByte(255) = 256 samples is never built by from_size but is a valid code)
     let y: u8 = kani::any();
     c02_header_body::<6, 8, 8>(BlockSizeSpec::ExtraByte(x), SampleRateSpec::KHz(y), 1);
 }
